@@ -35,15 +35,17 @@ RULE = (
     "that iteration's I/O callbacks), move_on_after(1.0), timeout(1.0), the handler's yielded timeout (request receivers)}; every peer write / cancel is placed at every loop-iteration "
     "boundary: idle placements free, placements while the loop is busy are costed deviations (bound 3 quick / 4 thorough), plus the "
     "explicit 'coincide' of a write with the scope deadline; blocking StreamEndpoint.recv_packet(timeout) with arrival instants "
-    "before/at-gap/after the deadline; distinct_nontrivial = distinct (layer, canceller, schedule shape, outcome) observations "
+    "before/at-gap/after the deadline; TLS over the real socket adapter (TLS 1.2/1.3, client/server, recv/recv_into with 2/64-byte buffers): 6 plaintext bytes in 1..3 "
+    "records or 17000 bytes in two records, peer gated on 'receive #1 is parked' or not, cancel (task.cancel / canceller task / scope.cancel) offered at every "
+    "select() while receive #1 is pending, ciphertext delivery whole/fragmented/held (deviation bound 2 quick / 3 thorough); distinct_nontrivial = distinct (layer, canceller, schedule shape, outcome) observations "
     "among runs where receive #1 was actually cancelled or timed out"
 )
 ASSUMPTIONS = [
     "after receive #1 ended (result, cancellation or timeout) the same transport/endpoint is read by another task until end-of-stream",
     "timed peer writes never coincide with the deadline except through the explicit 'coincide' choice",
-    "TLS over the adapter reuses the same StreamReaderBufferedProtocol paths (recv / recv_into) checked here",
+    "TLS layer (props/c10_tls.py): the peer is CPython's SSLObject; lost or duplicated ciphertext shows up as a TLS record error, a hang, or missing plaintext",
 ]
-BOUNDS = {"quick": "<= 2 cuts, busy-placement bound 3", "thorough": "<= 3 cuts, busy-placement bound 4"}
+BOUNDS = {"quick": "<= 2 cuts, busy-placement bound 3; TLS layer: deviation bound 2 on half of the (version, role, receive kind, canceller) grid", "thorough": "<= 3 cuts, busy-placement bound 4; TLS layer: deviation bound 3 on the whole grid"}
 
 STREAM = b"abcdef"
 PACKETS = ["ab", "cd", "ef"]
@@ -242,6 +244,9 @@ def jobs(tier: str) -> list[dict]:
                 out.append({"kind": "async", "layer": layer, "canceller": kind, "part": part, "parts": parts, "tier": tier})
     for proto in ("copy", "buf"):
         out.append({"kind": "sync", "proto": proto, "tier": tier})
+    from . import c10_tls
+
+    out += c10_tls.jobs(tier)
     return out
 
 
@@ -361,6 +366,10 @@ def run_sync_job(job: dict, res: JobResult) -> None:
 
 
 def run_job(job: dict) -> JobResult:
+    if job["kind"] == "tls":
+        from . import c10_tls
+
+        return c10_tls.run_job(job)
     res = JobResult()
     if job["kind"] == "async":
         run_async_job(job, res)
@@ -371,6 +380,10 @@ def run_job(job: dict) -> JobResult:
 
 def replay(doc: dict) -> tuple[bool, str]:
     rp = doc["replay"]
+    if rp["kind"] == "tls":
+        from . import c10_tls
+
+        return c10_tls.replay(doc)
     if rp["kind"] == "sync":
         obs = run_sync(Ctx(), rp["cfg"])
         bad = None if (obs["result"] == "ok" and obs["got"] == PACKETS) else "sync"
